@@ -62,6 +62,55 @@ func buildAstool(out string, overlay string) (string, error) {
 	return run(repoDir(), nil, "go", args...)
 }
 
+// sandboxOK reports (once) whether a private mount namespace with a read-only root can be set up
+// here: generator runs are then confined to their scratch directory, so that a generator that
+// computes a wrong (e.g. absolute) destination cannot write anywhere else.
+var sandboxOnce sync.Once
+var sandboxAvail bool
+
+const sandboxScript = `mount --make-rprivate / && mount --bind "$0" "$0" && mount -o remount,bind,ro / && cd "$1" && shift && exec "$@"`
+
+func sandboxOK() bool {
+	sandboxOnce.Do(func() {
+		d, err := os.MkdirTemp("", "verif-sbx-")
+		if err != nil {
+			return
+		}
+		defer os.RemoveAll(d)
+		out, err := exec.Command("unshare", "--mount", "sh", "-c", sandboxScript, d, d, "sh", "-c", "touch ok && ! touch /verif-sandbox-probe 2>/dev/null").CombinedOutput()
+		_ = out
+		if err == nil {
+			if _, e := os.Stat(filepath.Join(d, "ok")); e == nil {
+				sandboxAvail = true
+			}
+		}
+	})
+	return sandboxAvail
+}
+
+// runConfined runs a command with working directory dir; with the sandbox available only rw (which
+// must contain dir) is writable.
+func runConfined(rw, dir string, env []string, name string, args ...string) (string, error) {
+	if !sandboxOK() {
+		return run(dir, env, name, args...)
+	}
+	full := append([]string{"--mount", "sh", "-c", sandboxScript, rw, dir, name}, args...)
+	return run(dir, env, "unshare", full...)
+}
+
+// generateInPlace runs astool in the second documented way: from inside the destination directory
+// (<module>/streams), "-path <import path of that directory> .".
+func generateInPlace(astool string, specs []string, module string) (string, error) {
+	dir := filepath.Join(module, "streams")
+	os.MkdirAll(dir, 0o755)
+	var args []string
+	for _, s := range specs {
+		args = append(args, "-spec", s)
+	}
+	args = append(args, "-path", "github.com/go-fed/activity/streams", ".")
+	return runConfined(confineRoot(module), dir, nil, astool, args...)
+}
+
 // generate runs astool into <module>/streams.
 func generate(astool string, specs []string, module string, env []string) (string, error) {
 	os.MkdirAll(module, 0o755)
@@ -70,7 +119,17 @@ func generate(astool string, specs []string, module string, env []string) (strin
 		args = append(args, "-spec", s)
 	}
 	args = append(args, "-path", "github.com/go-fed/activity", "./streams")
-	return run(module, env, astool, args...)
+	return runConfined(confineRoot(module), module, env, astool, args...)
+}
+
+// scratchRoot is the check's scratch directory: the only place generator runs may write to.
+var scratchRoot string
+
+func confineRoot(module string) string {
+	if scratchRoot != "" && strings.HasPrefix(module, scratchRoot) {
+		return scratchRoot
+	}
+	return module
 }
 
 // treeDigest hashes every generated file below dir/streams.
@@ -173,6 +232,7 @@ func C15(tier string) int {
 		return 2
 	}
 	defer os.RemoveAll(scratch)
+	scratchRoot = scratch
 	deadline := time.Now().Add(12 * time.Minute)
 	if thorough {
 		deadline = time.Now().Add(60 * time.Minute)
@@ -205,6 +265,32 @@ func C15(tier string) int {
 	if len(astDiff) > 0 {
 		res.Violate("reproduction|syntax-trees-differ", fmt.Sprintf("%d regenerated files differ from the shipped ones in their Go syntax tree: %v", len(astDiff), short(astDiff, 8)), M{"check": "C15", "part": "reproduction", "files": short(astDiff, 40)})
 	}
+	// (1b) the second documented invocation: generate into the current directory. Only attempted when
+	// the run can be confined to its scratch directory (a wrong destination must not be written to).
+	inPlace := "skipped (no mount-namespace sandbox here)"
+	if sandboxOK() {
+		mod2 := filepath.Join(scratch, "inplace")
+		res.Case("reproduction|in-place-invocation")
+		if out, err := generateInPlace(astool, shippedSpecs(), mod2); err != nil {
+			res.Violate("reproduction|in-place-invocation|astool-fails", "astool, run from inside the destination directory with '.', fails: "+tailStr(out, 600), M{"check": "C15", "part": "reproduction", "invocation": "in-place"})
+		} else {
+			dig2, _ := treeDigest(mod2)
+			og, os2, df := diffDigests(dig2, baseDig)
+			var ad []string
+			for _, f := range df {
+				same, err := sameSyntaxTree(filepath.Join(mod2, "streams", f), filepath.Join(base, "streams", f))
+				if err != nil || !same {
+					ad = append(ad, f)
+				}
+			}
+			if len(og) > 0 || len(os2) > 0 || len(ad) > 0 {
+				res.Violate("reproduction|in-place-invocation|differs", fmt.Sprintf("astool run from inside the destination directory ('-path .../streams .') does not produce the package the './streams' invocation produces: %d files only here %v, %d missing %v, %d with another syntax tree %v",
+					len(og), short(og, 4), len(os2), short(os2, 4), len(ad), short(ad, 4)), M{"check": "C15", "part": "reproduction", "invocation": "in-place"})
+			}
+			inPlace = fmt.Sprintf("%d files, %d differ in comments only", len(dig2), len(df)-len(ad))
+		}
+	}
+	res.Extra["reproduction_in_place_invocation"] = inPlace
 	res.Extra["reproduction"] = M{"generated_files": len(baseDig), "byte_identical": len(baseDig) - len(differ), "differing_only_in_comments_or_layout": len(differ) - len(astDiff)}
 	res.Sample(M{"part": "reproduction", "files": len(baseDig)})
 
@@ -245,7 +331,7 @@ func C15(tier string) int {
 	wg.Wait()
 	res.Extra["extensions"] = extInfo
 	res.Sample(M{"part": "extension", "vocabulary": vocabs[0].Label, "types": len(vocabs[0].Types), "properties": len(vocabs[0].Props)})
-	res.Rule = "(1) astool built from the current tree regenerates streams/: same file set, same Go syntax trees; (2) astool rebuilt through the map-order overlay (every range over a map iterates in an order chosen by the explorer): baseline ASC, then per site DESC (deviation bound 1), global DESC and global ROTATE (thorough: per site ROTATE and all pairs of sites under DESC within the time budget) - every run's output tree must be byte-identical to the baseline; (3) extension vocabularies layered on ActivityStreams from a shape family (types with parents Object / Activity / Link / Collection / own type / two levels down / multiple parents; properties over 5 domain shapes x 8 range shapes x functional x withheld-from-own-child): astool must succeed, the code must compile, and the C13, C12, C01, C14 (thorough: C18) drivers rebuilt against the generated tree with a binding table from the extended ontology must pass; states = order policies + vocabularies, transitions = astool runs"
+	res.Rule = "(1) astool built from the current tree regenerates streams/: same file set, same Go syntax trees, through both documented invocations ('<dest>' and, from inside the destination, '.'); generator runs are confined to their scratch directory by a private mount namespace with a read-only root; (2) astool rebuilt through the map-order overlay (every range over a map iterates in an order chosen by the explorer): baseline ASC, then per site DESC (deviation bound 1), global DESC and global ROTATE (thorough: per site ROTATE and all pairs of sites under DESC within the time budget) - every run's output tree must be byte-identical to the baseline; (3) extension vocabularies layered on ActivityStreams from a shape family (types with parents Object / Activity / Link / Collection / own type / two levels down / multiple parents; properties over 5 domain shapes x 8 range shapes x functional x withheld-from-own-child): astool must succeed, the code must compile, and the C13, C12, C01, C14 (thorough: C18) drivers rebuilt against the generated tree with a binding table from the extended ontology must pass; states = order policies + vocabularies, transitions = astool runs"
 	res.Assumptions = []string{"'any well-formed extension' is replaced by the stated shape family", "map orders other than the enumerated policies are not covered", "go/parser + go/printer decide syntax-tree equality"}
 	return res.Finish()
 }
